@@ -147,14 +147,24 @@ _SAME = 'forall(lambda q: list(util)[q] in av, 0, len(util))'
 _T_AV = (f"ite(c05c_val(typed(av, 'dict[int, Expression]')[{_K}]) != 0.0, "
          f"app('numpy.exp', c05c_val(util[{_K}]) - c05c_val(util[{_CH}])), 0.0)")
 _T_FULL = f"app('numpy.exp', c05c_val(util[{_K}]) - c05c_val(util[{_CH}]))"
+# pointwise agreement of the kernel terms over the node's own dictionaries (contract of LogLogit.get_value) and over the
+# constructor arguments: proved first (cut), then the sum-congruence lemma closes the equality of the two sums
+_F_KEY = 'list(NODE.util)[q]'
+_F_CH = 'int(NODE.choice.get_value())'
+_F_AV = (f"ite(NODE.av[{_F_KEY}].get_value() != 0.0, "
+         f"app('numpy.exp', NODE.util[{_F_KEY}].get_value() - NODE.util[{_F_CH}].get_value()), 0.0)")
+_A_AV = (f"av is not None and {_CH} in util and {_CH} in av and {_SAME} and "
+         f"c05c_val(typed(av, 'dict[int, Expression]')[{_CH}]) != 0.0")
+_A_FULL = f"av is None and {_CH} in util"
 LOGLOGIT_ENSURES = {
-    'kernel': f"implies(av is not None and {_CH} in util and {_CH} in av and {_SAME} and "
-              f"c05c_val(typed(av, 'dict[int, Expression]')[{_CH}]) != 0.0, "
-              f"c05c_val(NODE) == -app('numpy.log', sum_range(lambda q: {_T_AV}, 0, len(util))))",
+    'kernel': f"c05c_cut('kernel:terms-agree', lambda: implies({_A_AV}, "
+              f"forall(lambda q: {_F_AV} == {_T_AV}, 0, len(util)))) and "
+              f"implies({_A_AV}, c05c_val(NODE) == -app('numpy.log', sum_range(lambda q: {_T_AV}, 0, len(util))))",
     'unavailable_choice': f"implies(av is not None and {_CH} in util and {_CH} in av and {_SAME} and "
-                          f"c05c_val(typed(av, 'dict[int, Expression]')[{_CH}]) == 0.0, c05c_val(NODE) == -np.inf)",
-    'kernel_full_choice_set': f"implies(av is None and {_CH} in util, "
-                              f"c05c_val(NODE) == -app('numpy.log', sum_range(lambda q: {_T_FULL}, 0, len(util))))",
+                          f"c05c_val(typed(av, 'dict[int, Expression]')[{_CH}]) == 0.0, c05c_val(NODE) == -c05c_inf())",
+    'kernel_full_choice_set': f"c05c_cut('kernel_full:terms-agree', lambda: implies({_A_FULL}, "
+                              f"forall(lambda q: {_F_AV} == {_T_FULL}, 0, len(util)))) and "
+                              f"implies({_A_FULL}, c05c_val(NODE) == -app('numpy.log', sum_range(lambda q: {_T_FULL}, 0, len(util))))",
 }
 _UTIL_COPIED = ('len(self.util) == len(util) and forall(lambda q: list(self.util)[q] == list(util)[q] and '
                 'self.util[list(util)[q]] is util[list(util)[q]], 0, len(util)) and '
@@ -168,11 +178,25 @@ _AV_ONES = ('implies(av is None, len(self.av) == len(util) and forall(lambda q: 
             "c05c_val(self.av[list(util)[q]]) == 1, 0, len(util)) and forall(lambda x: (x in self.av) == (x in util), ty='int'))")
 _CHOICE = 'c05c_val(self.choice) == c05c_num(choice)'
 _KEPT = ("len(util) == old(len(util)) and implies(av is not None, len(typed(av, 'dict[int, Expression]')) == old(len(typed(av, 'dict[int, Expression]'))))")
-_INV = {'util_copied': _UTIL_COPIED, 'av_copied': _AV_COPIED, 'av_ones': _AV_ONES, 'choice': _CHOICE}
+_UTIL_BY_KEY = "forall(lambda x: implies(x in util, self.util[x] is util[x]), ty='int')"
+_AV_BY_KEY = f"implies(av is not None, forall(lambda x: implies(x in {_AVD}, self.av[x] is {_AVD}[x]), ty='int'))"
+_AV_ONES_BY_KEY = "implies(av is None, forall(lambda x: implies(x in util, c05c_val(self.av[x]) == 1), ty='int'))"
+_INV = {'util_copied': _UTIL_COPIED, 'av_copied': _AV_COPIED, 'av_ones': _AV_ONES, 'choice': _CHOICE,
+        'util_by_key': _UTIL_BY_KEY, 'av_by_key': _AV_BY_KEY, 'av_ones_by_key': _AV_ONES_BY_KEY}
 contract(B + 'logit_expressions.LogLogit.__init__', P, exact_self=False,
          types={'util': 'dict[int, Expression]', 'av': 'dict[int, Expression] | None'},
          modifies=_EXPR_FIELDS + ['self.util', 'self.av', 'self.choice'],
          raises={'TypeError': _NOT_OPERAND.format('choice')},
+         requires={'python_dict': 'c05c_dict_wf(av)'},
          ensures=dict(_INV),
-         invariants={1: {'clauses': dict(_INV)}, 2: {'clauses': dict(_INV)}},
+         # the two construction paths (av None / given) are kept apart, each runs the two loops: ordinals 1-4
+         invariants={k: {'clauses': dict(_INV)} for k in (1, 2, 3, 4)},
          note='dictionaries restricted to Expression values (numbers in the dictionaries: bounded translation validation only)')
+# the subclass overrides __init__ (util, choice): needs its own contract (the core would otherwise apply the parent's
+# contract to the subclass's argument list)
+contract(B + 'logit_expressions._bioLogLogitFullChoiceSet.__init__', P,
+         types={'util': 'dict[int, Expression]'},
+         modifies=_EXPR_FIELDS + ['self.util', 'self.av', 'self.choice'],
+         raises={'TypeError': _NOT_OPERAND.format('choice')},
+         ensures={'util_copied': _UTIL_COPIED, 'av_ones': _AV_ONES.replace('implies(av is None, ', '(', 1), 'choice': _CHOICE,
+                  'util_by_key': _UTIL_BY_KEY, 'av_ones_by_key': _AV_ONES_BY_KEY.replace('implies(av is None, ', '(', 1)})
